@@ -329,6 +329,10 @@ func labelCode(l string) uint64 {
 		return 17
 	case "foreign:reg", "foreign:unreg":
 		return 18
+	case "Closed:f.closed.Load":
+		return 19
+	case "PipeTo:recv:f.done":
+		return 20
 	}
 	return 98
 }
@@ -576,7 +580,7 @@ func (h *H) monitors(cfg config, r result, in lib.T) {
 			if strings.TrimSpace(part) == "" {
 				continue
 			}
-			if !strings.Contains(part, "recv:f.done") {
+			if !strings.Contains(part, "\"Result:recv:f.done\"") && !strings.Contains(part, "\"Wait:recv:f.done\"") {
 				onlyWaiters = false
 			}
 		}
